@@ -4,7 +4,6 @@ import (
 	"bytes"
 	"fmt"
 
-	"github.com/zmap/zcrypto/x509"
 	"github.com/zmap/zlint/v3"
 )
 
